@@ -84,6 +84,10 @@ def gen_cond(run):
     return behs
 
 
+# controls that must NOT block (timing just expired, malformed annotation, terminal pod, PDB that does not apply...): if the
+# code nevertheless protects the node it is over-protective, which the statement allows -> MODEL-DRIFT note, not an error
+LENIENCY_CONTROLS = {"nominatedExpired", "nodeDndFalse", "podDndDurExpired", "podDndInvalid", "podDndTerminal", "pdbOk",
+                     "pdbZeroWaived", "pdbZeroTolerating", "pdbZeroOtherNs", "consolidatableEdge"}
 EXPLORE_BLOCKERS = ["unmanaged", "uninitialized", "nodeGone", "marked", "claimDeleting", "instanceTerminating", "nominated",
                     "nominatedEdge", "nominatedExpired", "nodeDnd", "podDndTrue", "podDndDur", "podDndDurEdge", "podDndDurExpired",
                     "podDndNoStart", "podDndInvalid", "podDndTerminal", "dsPodDnd", "pdbZero", "pdbOk", "pdbMulti",
@@ -136,7 +140,10 @@ def check(run):
                 "Behaviours of DisruptionCond.tla (TLC simulation + threshold tours) drive the real podevents / "
                 "nodeclaim-disruption controllers. Seeded explorer: larger random clusters, all methods + two rounds. "
                 "non-trivial = the real trace contains a command (guarded event) or a Consolidatable=True write")
-    closed_models(run)
+    if os.environ.get("VERIF_FAST"):     # development loop only (mutation runs): skip the closed-model part
+        run.notes.append("VERIF_FAST: closed models and spec mutations skipped")
+    else:
+        closed_models(run)
     rng = random.Random(run.seed)
     cells = gen_cells(run)
     scen = [dc.cell_scenario(c, rng) for c in cells]
@@ -149,7 +156,7 @@ def check(run):
         raise vlib.InfraError("trace count mismatch")
     by_name = {s["name"]: s for s in summ}
     # ---- binding is not vacuous: where the model issues the command on x, the real method must disrupt x
-    gaps, lively, guarded = [], 0, collections.Counter()
+    gaps, drift, lively, guarded = [], [], 0, collections.Counter()
     for sc in scen:
         s = by_name[sc["name"]]
         tags = sc["tags"]
@@ -165,13 +172,24 @@ def check(run):
         mine = [c for c in s["cmds"] if c["method"] == tags["method"]]
         hit = any("x" in c["names"] or "nc-x" in c["names"] for c in mine)
         if tags["issued"] and not hit:
-            gaps.append(sc["name"])
+            lenient = set((tags["pre"] + "+" + tags["churn"]).split("+")) & LENIENCY_CONTROLS
+            (drift if lenient else gaps).append(sc["name"])
         if not tags["issued"] and any(c["names"] for c in mine):
             lively += 1
-    if gaps:
-        raise vlib.InfraError("binding gap: the model issues a command on x but the real method did not disrupt x in %d cells "
-                              "(vacuous cells, model and code must be reconciled): %s" % (len(gaps), gaps[:12]))
+    if drift:
+        # the code protects a node the statement (and the model) would let go: over-protective, never a violation
+        msg = "MODEL-DRIFT: code stricter than the model in %d leniency-control cells (not a violation): %s" % (len(drift), drift[:8])
+        run.notes.append(msg)
+        print(msg)
+    run.extra_cov["model_drift_cells"] = drift
     run.validate("Disruption_Trace", "Disruption_Trace.cfg", files, heap="2g", par=4 if run.tier == "quick" else 8)
+    if gaps:
+        msg = ("binding gap: the model issues a command on x but the real method did not disrupt x in %d cells "
+               "(vacuous cells, model and code must be reconciled): %s" % (len(gaps), gaps[:12]))
+        fresh = [v for v in run.viol if run.pmap.get(v.get("guard")) == run.pid and vlib.match_known(run.known, run.pid, v) is None]
+        if not fresh:
+            raise vlib.InfraError(msg)
+        run.notes.append(msg)   # a real-code violation was found as well: that verdict stands
     ncell = sum(1 for sc in scen if sc["tags"]["kind"] == "cell")
     nissued = sum(1 for sc in scen if sc["tags"]["kind"] == "cell" and sc["tags"]["issued"])
     run.extra_cov.update({"table_cells": ncell, "cells_model_issues": nissued, "cells_blocked_with_live_control": lively,
@@ -196,5 +214,11 @@ def replay(run, path):
     s = dc.summarise(files)[0]
     run.note_case(sc["name"], bool(s["cmds"] or s["qcmds"] or s["ctrue_writes"]))
     run.note_case("replay", True)
+    if drift:
+        # the code protects a node the statement (and the model) would let go: over-protective, never a violation
+        msg = "MODEL-DRIFT: code stricter than the model in %d leniency-control cells (not a violation): %s" % (len(drift), drift[:8])
+        run.notes.append(msg)
+        print(msg)
+    run.extra_cov["model_drift_cells"] = drift
     run.validate("Disruption_Trace", "Disruption_Trace.cfg", files, heap="2g", par=1)
     run.samples = [{"scenario": sc["name"], "commands": s["cmds"], "round": s["qcmds"]}]
